@@ -109,7 +109,7 @@ METHODS = {
     # views / aliases
     "reshape": dict(ret="alias0"), "ravel": dict(ret="alias0"), "squeeze": dict(ret="alias0"),
     "transpose": dict(ret="alias0"), "view": dict(ret="alias0"),
-    "keys": dict(ret="keys0", labelflow=True), "values": dict(ret="alias0"), "items": dict(ret="items0"),
+    "keys": dict(ret="keys0", labelflow=True), "values": dict(ret="values0"), "items": dict(ret="items0"),
     "get": dict(ret="elem0"), "copy": dict(ret="shallow", labelflow=True), "fromkeys": dict(ret="fresh", cls="dict"),
     "from_iterable": dict(ret="shallow_flat"),
     # mutate the receiver
